@@ -22,10 +22,13 @@ type Collection struct {
 
 	mu   sync.RWMutex // protects byId from concurrent access
 	byId map[string]*item
+	// commits counts the writes applied to byId, guarded by mu. A published change carries the number of its
+	// commit so a subscription can tell the changes its seed already shows from the ones that came after it.
+	commits uint64
 	// rngMu protects rng: ids are generated while holding only the read lock of mu,
 	// so concurrent writers would otherwise use the rng at the same time
 	rngMu sync.Mutex
-	// "change" events contain a *CollectionChange instance
+	// "change" events contain a published instance
 	bus minibus.Bus
 }
 
@@ -110,6 +113,7 @@ func (c *Collection) Update(id string, msg proto.Message, opts ...WriteOption) (
 
 	var created proto.Message // during create, this is returned by GetFn so concurrent reference checks pass
 	var changeTime time.Time  // the time saved with the item, also reported by the change event
+	var commit uint64         // the number of this write
 	oldValue, newValue, err := GetAndUpdate(
 		&c.mu,
 		func() (item proto.Message, err error) {
@@ -159,6 +163,8 @@ func (c *Collection) Update(id string, msg proto.Message, opts ...WriteOption) (
 		func(msg proto.Message) {
 			changeTime = writeRequest.updateTime(c.clock)
 			c.byId[id] = &item{body: msg, changeTime: changeTime}
+			c.commits++
+			commit = c.commits
 		})
 
 	if err != nil {
@@ -173,13 +179,13 @@ func (c *Collection) Update(id string, msg proto.Message, opts ...WriteOption) (
 		changeType = types.ChangeType_ADD
 		oldValue = nil
 	}
-	c.bus.Send(context.TODO(), &CollectionChange{
+	c.bus.Send(context.TODO(), published{commit: commit, change: &CollectionChange{
 		Id:         id,
 		ChangeTime: changeTime,
 		ChangeType: changeType,
 		OldValue:   oldValue,
 		NewValue:   newValue,
-	})
+	}})
 	return newValue, nil
 }
 
@@ -227,12 +233,13 @@ func (c *Collection) Delete(id string, opts ...WriteOption) (proto.Message, erro
 
 		// actually do the delete
 		delete(c.byId, id)
-		c.bus.Send(context.TODO(), &CollectionChange{
+		c.commits++
+		c.bus.Send(context.TODO(), published{commit: c.commits, change: &CollectionChange{
 			Id:         id,
 			ChangeTime: args.updateTime(c.clock),
 			ChangeType: types.ChangeType_REMOVE,
 			OldValue:   oldVal.body,
-		})
+		}})
 		c.mu.Unlock()
 		return oldVal.body, nil
 	}
@@ -244,7 +251,7 @@ func (c *Collection) Pull(ctx context.Context, opts ...ReadOption) <-chan *Colle
 	readConfig := ComputeReadConfig(opts...)
 	filter := readConfig.ResponseFilter()
 
-	emit, currentValues := c.onUpdate(ctx, readConfig)
+	emit, currentValues, seeded := c.onUpdate(ctx, readConfig)
 	send := make(chan *CollectionChange)
 
 	go func() {
@@ -274,7 +281,16 @@ func (c *Collection) Pull(ctx context.Context, opts ...ReadOption) <-chan *Colle
 		}
 
 		for event := range emit {
-			change := event.(*CollectionChange)
+			var change *CollectionChange
+			switch e := event.(type) {
+			case published: // straight from the bus
+				if e.commit <= seeded {
+					continue // the seed already shows this change
+				}
+				change = e.change
+			case *CollectionChange: // from mergeCollectionExcess
+				change = e
+			}
 			change, ok := change.include(readConfig.Include)
 			if !ok {
 				continue
@@ -332,20 +348,46 @@ func (c *Collection) PullID(ctx context.Context, id string, opts ...ReadOption) 
 	return send
 }
 
-func (c *Collection) onUpdate(ctx context.Context, config *ReadRequest) (<-chan any, []idItem) {
+// onUpdate returns the changes published from now on, the current items unless config.UpdatesOnly, and the number
+// of the last commit those items show. A write publishes after it has released the lock, so changes numbered up
+// to that commit may still arrive: the seed already shows them and they must not be delivered a second time
+// (merged with a later REMOVE, such an ADD would otherwise cancel the REMOVE).
+func (c *Collection) onUpdate(ctx context.Context, config *ReadRequest) (<-chan any, []idItem, uint64) {
 	var res []idItem
+	var seeded uint64
 	if !config.UpdatesOnly {
 		c.mu.RLock()
 		defer c.mu.RUnlock()
 		res = c.itemSlice(config)
+		seeded = c.commits
 	}
 
 	ch := c.bus.Listen(ctx)
 	if !config.Backpressure {
-		ch = mergeCollectionExcess(ch)
+		ch = mergeCollectionExcess(changesAfter(ch, seeded))
 	}
 
-	return ch, res
+	return ch, res, seeded
+}
+
+// published is what travels on the bus: a change and the number of the commit it describes.
+type published struct {
+	change *CollectionChange
+	commit uint64
+}
+
+// changesAfter unwraps the changes of in, leaving out those numbered up to commit.
+func changesAfter(in <-chan any, commit uint64) <-chan any {
+	out := make(chan any)
+	go func() {
+		defer close(out)
+		for e := range in {
+			if p := e.(published); p.commit > commit {
+				out <- p.change
+			}
+		}
+	}()
+	return out
 }
 
 // Clock returns the clock used by this resource for reporting time.
